@@ -335,6 +335,18 @@ def run_property(pid, prop, tier, seed, only=None, jobs=None, replay_only=None):
                h.get("mem_gb", prop.get("mem_gb", 14)))
         groups.setdefault(key, []).append(h)
     solver_s = 0.0
+    # non-kani engines: preparation (cargo builds) now, their cbmc runs on a thread alongside the Kani groups
+    import threading
+    eng_threads = []
+    for eng in prop.get("engines", []):
+        box = []
+        if hasattr(eng, "prepare"):
+            st = eng.prepare(tier, seed, logdir)
+            th = threading.Thread(target=lambda e=eng, s=st, b=box: b.append(e.finish(s)))
+        else:
+            th = threading.Thread(target=lambda e=eng, b=box: b.append(e(tier, seed, logdir)))
+        th.start()
+        eng_threads.append((th, box))
     for gi, ((flags, timeout_s, mem_gb), group) in enumerate(sorted(groups.items(), key=lambda kv: str(kv[0]))):
         names = [h["name"] for h in group]
         log("[%s] kani group %d: %d harnesses, flags=%s, timeout=%ss, jobs=%d" % (pid, gi, len(names), " ".join(flags), timeout_s, jobs))
@@ -366,10 +378,12 @@ def run_property(pid, prop, tier, seed, only=None, jobs=None, replay_only=None):
                 results[n] = r
                 solver_s += (r.get("solver_s") or 0) + (r.get("symex_s") or 0)
 
-    # non-kani engines
-    for eng in prop.get("engines", []):
-        er = eng(tier, seed, logdir)
-        extra_results.append(er)
+    for th, box in eng_threads:
+        th.join()
+        if box:
+            extra_results.append(box[0])
+        else:
+            inconclusive.append({"harness": "engine", "reason": "engine thread ended without a result"})
 
     # classify
     for name, r in results.items():
